@@ -24,6 +24,11 @@ func checkC06(c *Ctx) {
 	c.rule("C06.g", "every FETCH response writer is closed on all paths", 3)
 	c.rule("C06.h", "the decoder un-reads a byte only directly after a successful byte read (bufio typestate; mustUnreadByte panics otherwise)", 9)
 	ruleUnreadTypestate(c, "C06.h")
+	c.rule("C06.j", "every round of a server-side parsing loop consumes input or leaves the loop", 5)
+	ruleParseLoopProgress(c, "C06.j", "imapserver", "internal")
+	c.rule("C06.L", "layering lemma", 1)
+	c.rule("C06.i", "no lock-order cycle or same-mutex nesting on the serving goroutine (a self-deadlocked connection goroutine never ends)", 8)
+	ruleLockOrder(c, "C06.i", newLockAnalysis(c.P, serverRoots(c.P), layeringCut(c, "C06.L")))
 	c.assume("a panic between acquire and release is contained by the goroutine's recover (C06.b) which ends the connection; panic edges are not paths of the pairing rules")
 
 	serve := p.Func("imapserver", "Conn", "serve")
